@@ -1,18 +1,403 @@
-//! C09 — (stub, under construction)
+//! C09 — every font the library writes is a valid, self-consistent sfnt.
+//!
+//! Invariant oracle at the API boundary: every successful `subset`, `prince::subset`, `whole_font`
+//! and `variations::instance` output is run through the independent structural validator
+//! (`sfnt::validate_c09`), then loaded by allsorts itself and queried for the advance and the
+//! outline of every glyph.
 
+use super::c07::common::*;
+use super::c07::subset_case;
 use super::Prop;
 use crate::rt::*;
+use crate::sfnt::validate_c09::{validate, Facts, Finding, Opts};
+use crate::sfnt::{self, cff_c07, tag, tag_str};
+use allsorts::binary::read::ReadScope;
+use allsorts::cff::CFF;
+use allsorts::font_data::FontData;
+use allsorts::outline::OutlineBuilder;
+use allsorts::tables::glyf::GlyfTable;
+use allsorts::tables::loca::LocaTable;
+use allsorts::tables::{FontTableProvider, HeadTable, MaxpTable};
+use allsorts::Font;
+use std::collections::BTreeSet;
 
-pub struct C09 {}
+pub struct C09 {
+    w: Workload,
+}
 
 impl C09 {
-    pub fn new(_cx: &mut Ctx) -> C09 {
-        C09 {}
+    pub fn new(cx: &mut Ctx) -> C09 {
+        C09 { w: Workload::new(cx) }
+    }
+}
+
+/// Rule ids of tables that a subset copies verbatim from the source.
+const COPIED_BY_SUBSET: &[&str] = &["name-unparsable", "os2-version-length", "head-magic", "head-length", "glyph-unparsable", "maxp-version-length", "maxp-version-vs-outlines", "hhea-length", "indexToLocFormat-invalid"];
+
+fn source_findings(src: &Src) -> BTreeSet<String> {
+    if let Some(s) = src.src_findings.borrow().as_ref() {
+        return s.clone();
+    }
+    let (f, _) = validate(&src.plain, &Opts { cross_table: true, ..Default::default() });
+    let set: BTreeSet<String> = f.into_iter().filter(|x| x.rule != "container").map(|x| x.sig).collect();
+    *src.src_findings.borrow_mut() = Some(set.clone());
+    set
+}
+
+/// Outline of every glyph through allsorts. Ok(list of glyph ids whose outline failed).
+fn outlines_fail(data: &[u8]) -> Result<Vec<(u16, String)>, String> {
+    let fd = ReadScope::new(data).read::<FontData<'_>>().map_err(|e| format!("FontData: {:?}", e))?;
+    let p = fd.table_provider(0).map_err(|e| format!("table_provider: {:?}", e))?;
+    let maxp = ReadScope::new(&p.read_table_data(allsorts::tag::MAXP).map_err(|e| format!("maxp: {:?}", e))?).read::<MaxpTable>().map_err(|e| format!("maxp: {:?}", e))?;
+    let n = maxp.num_glyphs;
+    let mut bad = Vec::new();
+    if p.has_table(allsorts::tag::GLYF) {
+        let head = ReadScope::new(&p.read_table_data(allsorts::tag::HEAD).map_err(|e| format!("head: {:?}", e))?).read::<HeadTable>().map_err(|e| format!("head: {:?}", e))?;
+        let loca_data = p.read_table_data(allsorts::tag::LOCA).map_err(|e| format!("loca: {:?}", e))?;
+        let loca = ReadScope::new(&loca_data).read_dep::<LocaTable<'_>>((usize::from(n), head.index_to_loc_format)).map_err(|e| format!("loca: {:?}", e))?;
+        let glyf_data = p.read_table_data(allsorts::tag::GLYF).map_err(|e| format!("glyf: {:?}", e))?;
+        let mut glyf = ReadScope::new(&glyf_data).read_dep::<GlyfTable<'_>>(&loca).map_err(|e| format!("glyf: {:?}", e))?;
+        for g in 0..n {
+            let mut sink = RecSink::default();
+            if let Err(e) = glyf.visit(g, &mut sink) {
+                bad.push((g, format!("{:?}", e)));
+            }
+        }
+    } else if p.has_table(allsorts::tag::CFF) {
+        let cff_data = p.read_table_data(allsorts::tag::CFF).map_err(|e| format!("CFF: {:?}", e))?;
+        let mut cff = ReadScope::new(&cff_data).read::<CFF<'_>>().map_err(|e| format!("CFF: {:?}", e))?;
+        for g in 0..n {
+            let mut sink = RecSink::default();
+            if let Err(e) = cff.visit(g, &mut sink) {
+                bad.push((g, format!("{:?}", e)));
+            }
+        }
+    } else if p.has_table(allsorts::tag::CFF2) {
+        let data = p.read_table_data(allsorts::tag::CFF2).map_err(|e| format!("CFF2: {:?}", e))?;
+        let cff2 = ReadScope::new(&data).read::<allsorts::cff::cff2::CFF2<'_>>().map_err(|e| format!("CFF2: {:?}", e))?;
+        // a variable source needs a tuple; only static CFF2 tables are visited here
+        if cff2.vstore.is_none() || !p.has_table(allsorts::tag::FVAR) {
+            for g in 0..n {
+                let mut sink = RecSink::default();
+                let mut o = allsorts::cff::outline::CFF2Outlines { table: &cff2, tuple: None };
+                if let Err(e) = o.visit(g, &mut sink) {
+                    bad.push((g, format!("{:?}", e)));
+                }
+            }
+        }
+    }
+    Ok(bad)
+}
+
+/// Font::new and an advance for every glyph. Ok(None) = fine, Ok(Some(..)) = first failure.
+fn load_fail(data: &[u8]) -> Result<Option<String>, String> {
+    let fd = ReadScope::new(data).read::<FontData<'_>>().map_err(|e| format!("FontData: {:?}", e))?;
+    let p = fd.table_provider(0).map_err(|e| format!("table_provider: {:?}", e))?;
+    let mut f = Font::new(p).map_err(|e| format!("Font::new: {:?}", e))?;
+    for g in 0..f.num_glyphs() {
+        if f.horizontal_advance(g).is_none() {
+            return Ok(Some(format!("horizontal_advance({}) is None (numGlyphs {})", g, f.num_glyphs())));
+        }
+    }
+    Ok(None)
+}
+
+impl C09 {
+    fn judge(&mut self, cx: &mut Ctx, case: &Case, out: &[u8]) {
+        let src = &case.src;
+        let opname = match &case.op {
+            Op::Subset => "subset",
+            Op::Prince { .. } => "prince",
+            Op::WholeFont { .. } => "whole_font",
+            Op::Instance { .. } => "instance",
+        };
+        // the Prince API returns a bare CFF table for CFF / CFF2 sources
+        if matches!(case.op, Op::Prince { .. }) && src.kind != Kind::TrueType {
+            match cff_c07::parse(out) {
+                Some(c) if c.charstrings.len() == case.ids.len() => {}
+                Some(c) => {
+                    cx.violation("tables", "prince-cff:charstring-count", case.witness(format!("{} charstrings for {} requested glyphs", c.charstrings.len(), case.ids.len())));
+                    return;
+                }
+                None => {
+                    cx.violation("tables", "prince-cff:unparsable", case.witness("the independent CFF reader rejects the bare CFF table".into()));
+                    return;
+                }
+            }
+            let n = case.ids.len();
+            let res = cx.guard("prince-cff-load", out.len(), || -> Result<Option<String>, String> {
+                let mut cff = ReadScope::new(out).read::<CFF<'_>>().map_err(|e| format!("{:?}", e))?;
+                for g in 0..n {
+                    let mut sink = RecSink::default();
+                    if let Err(e) = cff.visit(g as u16, &mut sink) {
+                        return Ok(Some(format!("glyph {}: {:?}", g, e)));
+                    }
+                }
+                Ok(None)
+            });
+            match res {
+                Some(Err(e)) => cx.violation("load", "prince-cff:rejected-by-allsorts", case.witness(e)),
+                Some(Ok(Some(e))) => {
+                    // only a defect of the writer when the source glyph is fine
+                    let _ = e;
+                    cx.class("prince-cff:some-outline-fails");
+                }
+                Some(Ok(None)) => {
+                    cx.class("validated:prince-bare-cff");
+                    cx.class(&format!("container:{}", case.container.name()));
+                    cx.nontrivial(case.hash());
+                }
+                None => {}
+            }
+            return;
+        }
+        let omit = matches!(&case.op, Op::Prince { target: Target::Omit, .. });
+        let opts = match &case.op {
+            Op::Subset | Op::Prince { .. } => Opts { cross_table: true, require_core: true, require_cmap: !omit, require_name: false, require_os2: src.kind != Kind::TrueType, written_by_subset: true },
+            Op::WholeFont { .. } => Opts { cross_table: true, ..Default::default() },
+            Op::Instance { .. } => Opts { cross_table: true, require_core: true, require_cmap: true, require_name: false, require_os2: false, written_by_subset: false },
+        };
+        let (findings, facts): (Vec<Finding>, Facts) = validate(out, &opts);
+        let inherited = source_findings(src);
+        let mut reported = false;
+        for f in &findings {
+            let inherit = f.rule != "container"
+                && inherited.contains(&f.sig)
+                && match &case.op {
+                    Op::Subset | Op::Prince { .. } => COPIED_BY_SUBSET.contains(&f.sig.as_str()),
+                    _ => true,
+                };
+            if inherit {
+                cx.class(&format!("inherited-from-source:{}", f.sig));
+                continue;
+            }
+            cx.violation(f.rule, &format!("{}:{}", opname, f.sig), case.witness(format!("{} (output of {} bytes, {} tables)", f.detail, out.len(), facts.num_tables)));
+            reported = true;
+        }
+        if reported {
+            return;
+        }
+        // ---- allsorts itself loads the result -------------------------------------------------------
+        let full_font = match &case.op {
+            Op::WholeFont { tags } => {
+                // only when every table of the source was carried over
+                src.font.tables.iter().all(|(t, _)| tags.contains(t))
+            }
+            _ => true,
+        };
+        if full_font && !omit {
+            let res = cx.guard("load-output", out.len(), || load_fail(out));
+            match res {
+                None => return,
+                Some(Err(e)) => {
+                    // differential: a source that allsorts cannot load either is not the writer's fault
+                    let src_ok = cx.guard("load-source", src.plain.len(), || load_fail(&src.plain)).map_or(false, |r| r.is_ok());
+                    if src_ok || !matches!(case.op, Op::WholeFont { .. } | Op::Instance { .. }) {
+                        cx.violation("load", &format!("{}:output-not-loadable", opname), case.witness(e));
+                        return;
+                    }
+                    cx.class("source:not-loadable-by-allsorts");
+                }
+                Some(Ok(Some(e))) => {
+                    cx.violation("load", &format!("{}:no-advance-for-glyph", opname), case.witness(e));
+                    return;
+                }
+                Some(Ok(None)) => cx.class("loaded:font-new+advances"),
+            }
+        }
+        if full_font {
+            let res = cx.guard("outlines-output", out.len(), || outlines_fail(out));
+            match res {
+                None => return,
+                Some(Err(e)) => {
+                    let src_ok = cx.guard("outlines-source", src.plain.len(), || outlines_fail(&src.plain)).map_or(false, |r| r.is_ok());
+                    if src_ok {
+                        cx.violation("load", &format!("{}:glyph-tables-not-loadable", opname), case.witness(e));
+                        return;
+                    }
+                    cx.class("source:glyph-tables-not-loadable");
+                }
+                Some(Ok(bad)) => {
+                    if !bad.is_empty() {
+                        // which source glyphs fail on their own?
+                        let src_bad: BTreeSet<u16> = cx.guard("outlines-source", src.plain.len(), || outlines_fail(&src.plain)).and_then(|r| r.ok()).map(|v| v.into_iter().map(|x| x.0).collect()).unwrap_or_default();
+                        let subset_like = matches!(case.op, Op::Subset | Op::Prince { .. });
+                        let mut genuine = None;
+                        for (g, e) in &bad {
+                            let old = if subset_like { case.ids.get(*g as usize).copied() } else { Some(*g) };
+                            match old {
+                                Some(o) if !src_bad.contains(&o) && (src_bad.is_empty() || src.kind != Kind::TrueType) => {
+                                    genuine = Some((*g, o, e.clone()));
+                                    break;
+                                }
+                                _ => {}
+                            }
+                        }
+                        if let Some((g, o, e)) = genuine {
+                            cx.violation("load", &format!("{}:no-outline-for-glyph", opname), case.witness(format!("output glyph {} (source glyph {}) has no outline: {}; the source glyph is fine", g, o, e)));
+                            return;
+                        }
+                        cx.class("source:some-glyph-outline-fails");
+                    } else {
+                        cx.class("loaded:all-outlines");
+                    }
+                }
+            }
+        }
+        // ---- classes -----------------------------------------------------------------------------------
+        cx.class(&format!("validated:{}", opname));
+        cx.class(&format!("container:{}", case.container.name()));
+        for f in &facts.cmap_formats {
+            cx.class(&format!("out-cmap-format:{}", f));
+        }
+        if facts.has_glyf {
+            cx.class(if facts.loca_long { "out-loca:long" } else { "out-loca:short" });
+        }
+        if facts.has_cff {
+            cx.class("out:cff");
+        }
+        if facts.composites > 0 {
+            cx.class("out:has-composites");
+        }
+        if facts.odd_length_tables > 0 {
+            cx.class("out:table-length-not-multiple-of-4");
+        }
+        if !full_font {
+            cx.class("whole_font:tag-subset");
+        }
+        cx.nontrivial(mix(case.hash(), hash_bytes(&out[..out.len().min(4096)])));
+        if cx.want_sample() {
+            cx.sample(J::obj(vec![("font", J::s(src.name.clone())), ("op", J::s(case.op.name())), ("container", J::s(case.container.name())), ("ids", J::U(case.ids.len() as u64)), ("output_bytes", J::U(out.len() as u64)), ("tables", J::U(facts.num_tables as u64))]));
+        }
+    }
+}
+
+impl C09 {
+    /// Collect every table the WOFF2 provider returns, assemble them with the harness's own sfnt
+    /// writer and run the cross-table validator (container-level rules do not apply to this copy).
+    fn woff2_tables(&mut self, cx: &mut Ctx, case: &Case) {
+        let bytes = &case.bytes;
+        let got = cx.guard("woff2-provider-tables", bytes.len(), || -> Result<Vec<(u32, Vec<u8>)>, String> {
+            let fd = ReadScope::new(bytes).read::<FontData<'_>>().map_err(|e| format!("FontData: {:?}", e))?;
+            let p = fd.table_provider(0).map_err(|e| format!("table_provider: {:?}", e))?;
+            let mut v = Vec::new();
+            for t in p.table_tags().unwrap_or_default() {
+                match p.table_data(t) {
+                    Ok(Some(d)) => v.push((t, d.to_vec())),
+                    Ok(None) => return Err(format!("listed table {} is absent", tag_str(t))),
+                    Err(e) => return Err(format!("table {}: {:?}", tag_str(t), e)),
+                }
+            }
+            Ok(v)
+        });
+        let tables = match got {
+            Some(Ok(t)) => t,
+            Some(Err(e)) => {
+                // the harness's own encoder made this file from a font the independent reader accepts
+                cx.violation("woff2-tables", "woff2-provider:tables-not-readable", case.witness(e));
+                return;
+            }
+            None => return,
+        };
+        let mut f = sfnt::Font::new(case.src.font.version);
+        for (t, d) in tables {
+            f.set(t, d);
+        }
+        let rebuilt = f.build();
+        let (findings, facts) = validate(&rebuilt, &Opts { cross_table: true, ..Default::default() });
+        let inherited = source_findings(&case.src);
+        let mut clean = true;
+        for fi in &findings {
+            if fi.rule == "container" {
+                continue;
+            }
+            if inherited.contains(&fi.sig) {
+                cx.class(&format!("inherited-from-source:{}", fi.sig));
+                continue;
+            }
+            clean = false;
+            cx.violation(fi.rule, &format!("woff2-provider:{}", fi.sig), case.witness(format!("{} (tables handed out by the WOFF2 provider)", fi.detail)));
+        }
+        if clean {
+            cx.class("validated:woff2-provider-tables");
+            if facts.has_glyf && matches!(case.container, Container::Woff2 { glyf_transform: true, .. }) {
+                let src_long = crate::sfnt::tables::Head::read(case.src.font.gets("head").unwrap_or(&[])).map_or(false, |h| h.index_to_loc_format != 0);
+                cx.class(match (src_long, facts.loca_long) {
+                    (false, true) => "woff2-reconstruction:short-loca-upgraded-to-long",
+                    (false, false) => "woff2-reconstruction:short-loca-kept",
+                    (true, _) => "woff2-reconstruction:long-loca",
+                });
+            }
+        }
     }
 }
 
 impl Prop for C09 {
-    fn case(&mut self, cx: &mut Ctx, _rng: &mut Rng) {
-        cx.inconclusive("not-implemented");
+    fn case(&mut self, cx: &mut Ctx, rng: &mut Rng) {
+        let roll = rng.below(20);
+        let case = if roll < 11 {
+            match subset_case(&mut self.w, cx, rng, [8, 5, 4, 3, 1, 2], None) {
+                Some((c, _)) => c,
+                None => return,
+            }
+        } else if roll < 17 {
+            let (src, _) = match self.w.pick_src(cx, rng, [6, 5, 3, 2, 3, 3], None) {
+                Some(s) => s,
+                None => return,
+            };
+            let mut tags: Vec<u32> = src.font.tables.iter().map(|t| t.0).collect();
+            match rng.below(4) {
+                0 => {
+                    // random subset (head and maxp are always added by whole_font)
+                    tags.retain(|_| rng.chance(2, 3));
+                }
+                1 => {
+                    let extra = *rng.pick(&tags);
+                    tags.push(extra);
+                }
+                _ => {}
+            }
+            rng.shuffle(&mut tags);
+            let choice = rng.below(4).min(2);
+            let (container, bytes) = wrap(&src, rng, choice);
+            Case { src, ids: vec![0], id_mode: "n/a".into(), op: Op::WholeFont { tags }, container, bytes }
+        } else {
+            let (src, _) = match self.w.pick_src(cx, rng, [0, 0, 0, 0, 1, 0], None) {
+                Some(s) => s,
+                None => return,
+            };
+            if src.axes.is_empty() {
+                return;
+            }
+            let mode = rng.below(4);
+            let coords: Vec<i32> = src
+                .axes
+                .iter()
+                .map(|a| match if mode == 3 { rng.below(4) } else { mode } {
+                    0 => a.def,
+                    1 => a.min,
+                    2 => a.max,
+                    _ => rng.range(a.min as i64, a.max as i64) as i32,
+                })
+                .collect();
+            let choice = rng.below(4).min(2);
+            let (container, bytes) = wrap(&src, rng, choice);
+            Case { src, ids: vec![0], id_mode: "n/a".into(), op: Op::Instance { coords }, container, bytes }
+        };
+        // "tables reconstructed from WOFF2 ... are mutually consistent": judged directly on what the
+        // WOFF2 table provider hands out (not only through whole_font, which may fail on them)
+        if matches!(case.container, Container::Woff2 { .. }) {
+            self.woff2_tables(cx, &case);
+        }
+        let out = match run_op(cx, &case) {
+            None => return,
+            Some(Err(e)) => {
+                cx.class(&format!("op-error:{}:{}", case.op.name(), e.chars().take(40).collect::<String>()));
+                return;
+            }
+            Some(Ok(o)) => o,
+        };
+        self.judge(cx, &case, &out);
+        let _ = (tag("head"), tag_str(0), sfnt::be16(&out, 0));
     }
 }
